@@ -9,7 +9,7 @@ set -u
 export GOFLAGS=-mod=mod GOPROXY=off GOSUMDB=off GOTOOLCHAIN=local
 unset GOWORK
 D="$(cd "$1" && pwd)"; shift
-PROPS="${@:-C01 C02 C04 C05 C07 C08 C10 C11 C12 C14 C15 C16 C17 C18 C19 C20}"
+PROPS="${@:-C01 C02 C04 C05 C07 C08 C09 C10 C11 C12 C14 C15 C16 C17 C18 C19 C20}"
 DEMO="$D/demo_test.go"; [ -f "$DEMO" ] || DEMO="$D/demo_test.go.txt"
 DEMODIR="."; RACE=""
 if [ -f "$D/meta.json" ]; then
@@ -33,7 +33,7 @@ cp "$DEMO" "$WT/$DEMODIR/zz_demo_test.go"
 rm -f "$WT/$DEMODIR/zz_demo_test.go"
 FIRED=""
 for p in $PROPS; do
-  OUT=$(/verif/.bin/cmverify -repo "$WT" -verif "$SV" -property $p -tier quick 2>&1); RC=$?
+  OUT=$("${CMVERIFY:-/verif/.bin/cmverify}" -repo "$WT" -verif "$SV" -property $p -tier quick 2>&1); RC=$?
   if [ $RC -ne 0 ]; then FIRED="$FIRED $p:[$(echo "$OUT" | grep -E '^(VIOLATION|UNDECIDED):' | sed -E 's/^(VIOLATION|UNDECIDED): ([^ ]+) (.*) at .*/\2\/\3/' | cut -c1-100 | tr '\n' ';')]"; fi
 done
 git checkout -- . ; git clean -fdq
